@@ -135,7 +135,7 @@ def copy_(op, dest, src, non_blocking=False):
         return op(dest, src.dequantize(), non_blocking)
     if not isinstance(src, QBytesTensor):
         # Copying from a standard Tensor: quantize it with the destination qtype and scale
-        src = SymmetricQuantizer.apply(src, dest.qtype, dest.axis, dest._scale)
+        src = SymmetricQuantizer.apply(src.expand(dest.size()), dest.qtype, dest.axis, dest._scale)
     assert dest.qtype == src.qtype
     dest._data = op(dest._data, src._data, non_blocking)
     dest._scale = op(dest._scale, src._scale, non_blocking)
